@@ -59,12 +59,16 @@ inductive Op
   | send (e : EventId)
   | activate
   | reconstruct           -- a new machine over the same model (restart)
+  | allowed               -- observe sm.allowed_events
+  | events                -- observe sm.events
+  | swap (k : Nat)        -- the callback lists change (a listener was attached): use machine variant k
 deriving Repr
 
 structure Scn where
   kind : String := ""
   name : String := ""
   states : Array StateDef := #[]
+  variants : Array (Array StateDef) := #[]
   toks : List (Nat × Bool × String) := []     -- id, falsy, repr
   acts : Array ActRow := #[]
   opts : Opts := {}
@@ -128,6 +132,10 @@ def addLine (s : Scn) (toks : List String) : Scn :=
         act := { ret := natOf (look kv "ret"), raises := optNat (look kv "raise"),
                  sends := natList (look kv "sends") } }
     { s with acts := s.acts.push row }
+  | "variant" :: _ => { s with variants := s.variants.push s.states, states := #[] }
+  | "op" :: "allowed" :: _ => { s with ops := s.ops.push .allowed }
+  | "op" :: "events" :: _ => { s with ops := s.ops.push .events }
+  | "op" :: "swap" :: k :: _ => { s with ops := s.ops.push (.swap (natOf k)) }
   | "op" :: "construct" :: _ => { s with ops := s.ops.push .construct }
   | "op" :: "reconstruct" :: _ => { s with ops := s.ops.push .reconstruct }
   | "op" :: "activate" :: _ => { s with ops := s.ops.push .activate }
@@ -170,8 +178,12 @@ def entryS (s : Scn) : Entry → String
   | .cbEnd t ph cb v => s!"E {t} {phaseName ph} {cb} {s.reprV v}"
   | .setState t v => s!"T {t} {s.reprV v}"
 
-def runEngine (s : Scn) : List String := Id.run do
-  let m := s.machine
+def sortNat (l : List Nat) : List Nat := (l.toArray.qsort (· < ·)).toList
+
+def runEngine (s0 : Scn) : List String := Id.run do
+  let allv := s0.variants.push s0.states
+  let s : Scn := { s0 with states := allv[0]! }
+  let mut m := s.machine
   let mut cfg : Cfg := { cur := s.cur0 }
   let mut out : List String := []
   let mut i := 0
@@ -182,6 +194,24 @@ def runEngine (s : Scn) : List String := Id.run do
     else
       let before := cfg.log.length
       let before_tid := cfg.nextTid
+      match op with
+      | .allowed =>
+        let line := match cfg.cur.bind (lookupState m) with
+          | some st => "A " ++ toString i ++ " " ++ (if (allowedEvents m st).isEmpty then "-" else ",".intercalate ((allowedEvents m st).map toString))
+          | none => "A " ++ toString i ++ " err invalidstate"
+        out := out ++ [line]
+        i := i + 1
+        continue
+      | .events =>
+        out := out ++ ["V " ++ toString i ++ " " ++ ",".intercalate ((sortNat (allEvents m)).map toString)]
+        i := i + 1
+        continue
+      | .swap k =>
+        m := ({ s with states := allv[k]! } : Scn).machine
+        out := out ++ [s!"R {i} ok None cur={optS s.reprV cfg.cur} tid=-"]
+        i := i + 1
+        continue
+      | _ => pure ()
       let (cfg', r) : Cfg × Except Exc Res := match op with
         | .construct => match construct m s.opts s.fuel cfg with
           | (c, .ok _) => (c, .ok .none)
@@ -192,6 +222,7 @@ def runEngine (s : Scn) : List String := Id.run do
           | (c, .error e) => (c, .error e)
         | .send e => send m s.opts s.fuel e cfg
         | .activate => activateOp m s.opts s.fuel cfg
+        | _ => (cfg, .ok .none)
       cfg := cfg'
       out := out ++ (cfg.log.drop before).map (entryS s)
       let rs := match r with
